@@ -3,4 +3,1443 @@ import GoRes.Model.Pattern
 namespace GoRes.Pattern
 open GoRes Ch
 
+set_option linter.unusedSimpArgs false
+
+attribute [local simp] Ch.dot Ch.dollar Ch.star Ch.gt Ch.qmark
+
+/-! ## basic shapes -/
+
+/-- no dot in the string -/
+def NoDot (s : Str) : Prop := ∀ x ∈ s, x ≠ 46
+
+/-- "rest-shaped": what follows a token in a rendered pattern (nothing, or a dot and more) -/
+def IsRest (P : Str) : Prop := P = [] ∨ ∃ P', P = 46 :: P'
+
+theorem NoDot.nil : NoDot [] := by simp [NoDot]
+theorem NoDot.tail {c : Nat} {s : Str} (h : NoDot (c :: s)) : NoDot s :=
+  fun x hx => h x (List.mem_cons_of_mem _ hx)
+theorem NoDot.head {c : Nat} {s : Str} (h : NoDot (c :: s)) : c ≠ 46 :=
+  h c (List.mem_cons_self ..)
+
+theorem skipTok_append {n P : Str} (hn : NoDot n) (hP : IsRest P) : skipTok (n ++ P) = P := by
+  induction n with
+  | nil =>
+    rcases hP with rfl | ⟨P', rfl⟩ <;> simp [skipTok]
+  | cons c n ih =>
+    have h1 := hn.head
+    simp [skipTok, h1, ih hn.tail]
+
+theorem takeTok_append {n P : Str} (hn : NoDot n) (hP : IsRest P) : takeTok (n ++ P) = n := by
+  induction n with
+  | nil =>
+    rcases hP with rfl | ⟨P', rfl⟩ <;> simp [takeTok]
+  | cons c n ih =>
+    have h1 := hn.head
+    simp [takeTok, h1, ih hn.tail]
+
+/-- the part of a rendered pattern after its first token -/
+def rrest (ps : List Tok) : Str :=
+  match ps with
+  | [] => []
+  | t :: r => 46 :: render (t :: r)
+
+theorem rrest_isRest (ps : List Tok) : IsRest (rrest ps) := by
+  cases ps with
+  | nil => exact Or.inl rfl
+  | cons t r => exact Or.inr ⟨_, rfl⟩
+
+theorem render_cons (t : Tok) (ps : List Tok) : render (t :: ps) = t.render ++ rrest ps := by
+  cases ps <;> simp [render, joinDots, rrest]
+
+@[simp] theorem render_nil : render [] = [] := rfl
+@[simp] theorem rrest_nil : rrest [] = [] := rfl
+theorem rrest_cons (t : Tok) (r : List Tok) : rrest (t :: r) = 46 :: render (t :: r) := rfl
+
+@[simp] theorem Tok.render_lit (s : Str) : (Tok.lit s).render = s := rfl
+@[simp] theorem Tok.render_tag (n : Str) : (Tok.tag n).render = 36 :: n := rfl
+@[simp] theorem Tok.render_star : Tok.star.render = [42] := rfl
+@[simp] theorem Tok.render_full : Tok.full.render = [62] := rfl
+
+/-- character class of non-first bytes of tokens -/
+def okc (x : Nat) : Bool := okChar x && x ≠ star && x ≠ gt
+
+theorem okc_iff (x : Nat) : okc x = true ↔ (33 ≤ x ∧ x ≤ 126 ∧ x ≠ 63 ∧ x ≠ 46 ∧ x ≠ 42 ∧ x ≠ 62) := by
+  simp [okc, okChar]; omega
+
+theorem wfPat_cons (t : Tok) (r : List Tok) :
+    wfPat (t :: r) = (t.ok && (r.isEmpty || decide (t ≠ .full)) && wfPat r) := by
+  cases r <;> simp [wfPat]
+
+/-! ## token facts -/
+
+/-- what the scanners need of a right-hand-side token: non-empty and dot-free -/
+def Tok.sOk (t : Tok) : Prop := t.render ≠ [] ∧ NoDot t.render
+
+theorem noDot_of_okc {s : Str} (h : ∀ x ∈ s, okc x = true) : NoDot s := by
+  intro x hx
+  have := (okc_iff x).1 (h x hx)
+  omega
+
+theorem litOk_cons_iff (c : Nat) (r : Str) :
+    litOk (c :: r) = true ↔
+      (33 ≤ c ∧ c ≤ 126 ∧ c ≠ 63 ∧ c ≠ 46 ∧ c ≠ 36 ∧ c ≠ 42 ∧ c ≠ 62) ∧ ∀ x ∈ r, okc x = true := by
+  simp [litOk, okChar, okc]
+  omega
+
+theorem tagOk_iff (n : Str) :
+    tagOk n = true ↔ (∀ x ∈ n, okc x = true) ∧ ∃ x ∈ n, x ≠ 36 := by
+  simp [tagOk, okChar, okc]
+
+theorem Tok.ok_sOk {t : Tok} (h : t.ok = true) : t.sOk := by
+  cases t with
+  | lit s =>
+    cases s with
+    | nil => simp [Tok.ok, litOk] at h
+    | cons c r =>
+      have h' := (litOk_cons_iff c r).1 h
+      refine ⟨by simp [Tok.render], ?_⟩
+      intro x hx
+      simp [Tok.render] at hx
+      rcases hx with rfl | hx
+      · omega
+      · have := (okc_iff x).1 (h'.2 x hx); omega
+  | tag n =>
+    have h' := (tagOk_iff n).1 h
+    refine ⟨by simp [Tok.render], ?_⟩
+    intro x hx
+    simp [Tok.render] at hx
+    rcases hx with rfl | hx
+    · omega
+    · have := (okc_iff x).1 (h'.1 x hx); omega
+  | star => exact ⟨by simp [Tok.render], by intro x hx; simp [Tok.render] at hx; omega⟩
+  | full => exact ⟨by simp [Tok.render], by intro x hx; simp [Tok.render] at hx; omega⟩
+
+theorem wfPat_tail {t : Tok} {r : List Tok} (h : wfPat (t :: r) = true) : wfPat r = true := by
+  rw [wfPat_cons] at h; simp at h; exact h.2
+
+theorem wfPat_head {t : Tok} {r : List Tok} (h : wfPat (t :: r) = true) : t.ok = true := by
+  rw [wfPat_cons] at h; simp at h; exact h.1.1
+
+theorem wfPat_full {r : List Tok} (h : wfPat (Tok.full :: r) = true) : r = [] := by
+  rw [wfPat_cons] at h; simp at h; exact h.1.2
+
+theorem wfPat_all_ok {ts : List Tok} (h : wfPat ts = true) : ∀ t ∈ ts, t.ok = true := by
+  induction ts with
+  | nil => simp
+  | cons t r ih =>
+    intro x hx
+    simp at hx
+    rcases hx with rfl | hx
+    · exact wfPat_head h
+    · exact ih (wfPat_tail h) x hx
+
+/-! ## Matches -/
+
+theorem matchesLoop_lit (a b P S : Str) (ha : ∀ x ∈ a, x ≠ 46 ∧ x ≠ 62) (hb : NoDot b)
+    (hP : IsRest P) (hS : IsRest S) :
+    matchesLoop false (a ++ P) (b ++ S) = (a == b && matchesLoop false P S) := by
+  induction a generalizing b with
+  | nil =>
+    cases b with
+    | nil => simp
+    | cons d b =>
+      have hd := hb.head
+      rcases hP with rfl | ⟨P', rfl⟩
+      · simp [matchesLoop]
+      · simp [matchesLoop]; omega
+  | cons c a ih =>
+    have hc := ha c (List.mem_cons_self ..)
+    cases b with
+    | nil =>
+      rcases hS with rfl | ⟨S', rfl⟩
+      · simp [matchesLoop]
+      · simp [matchesLoop, hc.1, hc.2]
+    | cons d b =>
+      have ih' := ih b (fun x hx => ha x (List.mem_cons_of_mem _ hx)) hb.tail
+      simp only [List.cons_append]
+      rw [matchesLoop]
+      by_cases hcd : c = d
+      · subst hcd
+        simp [hc.1, hc.2, ih']
+      · simp [hc.2, hcd]
+
+
+theorem tokMatches_nil_right (ps : List Tok) : tokMatches ps [] = ps.isEmpty := by
+  cases ps with
+  | nil => simp [tokMatches]
+  | cons t r => simp [tokMatches]
+
+theorem tokMatches_nil_left (ns : List Tok) : tokMatches [] ns = ns.isEmpty := by
+  cases ns with
+  | nil => simp [tokMatches]
+  | cons t r => simp [tokMatches]
+
+theorem render_cons_ne_nil {t : Tok} {r : List Tok} (h : t.sOk) : render (t :: r) ≠ [] := by
+  rw [render_cons]; simp [h.1]
+
+theorem Tok.sOk.exists_cons {t : Tok} (h : t.sOk) :
+    ∃ d n', t.render = d :: n' ∧ d ≠ 46 ∧ NoDot n' := by
+  rcases h with ⟨h1, h2⟩
+  cases hr : t.render with
+  | nil => exact absurd hr h1
+  | cons d n' =>
+    rw [hr] at h2
+    exact ⟨d, n', rfl, h2.head, h2.tail⟩
+
+theorem matchesLoop_rest (ps ns : List Tok)
+    (ih : matchesLoop true (render ps) (render ns) = tokMatches ps ns) :
+    matchesLoop false (rrest ps) (rrest ns) = tokMatches ps ns := by
+  cases ps with
+  | nil =>
+    cases ns with
+    | nil => simp [matchesLoop, tokMatches]
+    | cons n ns => simp [matchesLoop, tokMatches, rrest]
+  | cons t r =>
+    cases ns with
+    | nil => simp [matchesLoop, tokMatches_nil_right, rrest]
+    | cons n ns =>
+      rw [rrest_cons, rrest_cons, matchesLoop]
+      simpa using ih
+
+/-- wildcard token at token start: skip both tokens -/
+theorem matchesLoop_wild (c : Nat) (hc : c = 36 ∨ c = 42) (t P : Str) (n : Tok) (S : Str)
+    (ht : NoDot t) (hP : IsRest P) (hn : n.ok = true) (hS : IsRest S) :
+    matchesLoop true (c :: (t ++ P)) (n.render ++ S) = (n != .full && matchesLoop false P S) := by
+  obtain ⟨d, n', hr, hd, hn'⟩ := (Tok.ok_sOk hn).exists_cons
+  have hfull : d = 62 ↔ n = .full := by
+    cases n with
+    | lit s =>
+      cases s with
+      | nil => simp [Tok.ok, litOk] at hn
+      | cons c r =>
+        have h' := (litOk_cons_iff c r).1 hn
+        simp [Tok.render] at hr
+        simp; omega
+    | tag x => simp [Tok.render] at hr; simp; omega
+    | star => simp [Tok.render] at hr; simp; omega
+    | full => simp [Tok.render] at hr; simp; omega
+  rw [hr, List.cons_append, matchesLoop]
+  have h1 : skipTok (t ++ P) = P := skipTok_append ht hP
+  have h2 : skipTok (d :: (n' ++ S)) = S := by
+    have : NoDot (d :: n') := by
+      intro x hx; simp at hx; rcases hx with rfl | hx
+      · exact hd
+      · exact hn' x hx
+    exact skipTok_append (n := d :: n') this hS
+  rw [h1, h2]
+  by_cases hf : n = .full
+  · have := hfull.2 hf
+    simp [hc, this, hf]
+  · have : d ≠ 62 := fun h => hf (hfull.1 h)
+    simp [hc, this, hf]
+
+theorem matchesLoop_spec (pt st : List Tok) (hp : wfPat pt = true) (hs : ∀ n ∈ st, n.ok = true) :
+    matchesLoop true (render pt) (render st) = tokMatches pt st := by
+  induction pt generalizing st with
+  | nil =>
+    cases st with
+    | nil => simp [matchesLoop, tokMatches]
+    | cons n ns =>
+      have := render_cons_ne_nil (r := ns) (Tok.ok_sOk (hs n (List.mem_cons_self ..)))
+      simp [matchesLoop, tokMatches, this]
+  | cons t ps ih =>
+    have htok := wfPat_head hp
+    cases st with
+    | nil =>
+      have := render_cons_ne_nil (r := ps) (Tok.ok_sOk htok)
+      cases hr : render (t :: ps) with
+      | nil => exact absurd hr this
+      | cons c p => simp [matchesLoop, tokMatches_nil_right]
+    | cons n ns =>
+      have hn := hs n (List.mem_cons_self ..)
+      have hrest := matchesLoop_rest ps ns
+        (ih ns (wfPat_tail hp) (fun x hx => hs x (List.mem_cons_of_mem _ hx)))
+      rw [render_cons, render_cons]
+      cases t with
+      | lit a =>
+        cases a with
+        | nil => simp [Tok.ok, litOk] at htok
+        | cons c a =>
+          have hc := (litOk_cons_iff c a).1 htok
+          have ha : ∀ x ∈ a, x ≠ 46 ∧ x ≠ 62 := by
+            intro x hx; have := (okc_iff x).1 (hc.2 x hx); omega
+          cases n with
+          | lit b =>
+            cases b with
+            | nil => simp [Tok.ok, litOk] at hn
+            | cons d b =>
+              have hd := (litOk_cons_iff d b).1 hn
+              have hb : NoDot b := noDot_of_okc hd.2
+              simp only [Tok.render_lit, Tok.render_tag, Tok.render_star, Tok.render_full, List.cons_append]
+              rw [matchesLoop, tokMatches]
+              by_cases hcd : c = d
+              · subst hcd
+                simp [hc.1, matchesLoop_lit a b _ _ ha hb (rrest_isRest ps) (rrest_isRest ns), hrest]
+              · simp [hc.1, hcd]
+          | tag x =>
+            simp only [Tok.render_lit, Tok.render_tag, Tok.render_star, Tok.render_full, List.cons_append]
+            rw [matchesLoop]
+            simp [hc.1, tokMatches]
+          | star =>
+            simp only [Tok.render_lit, Tok.render_tag, Tok.render_star, Tok.render_full, List.cons_append]
+            rw [matchesLoop]
+            simp [hc.1, tokMatches]
+          | full =>
+            simp only [Tok.render_lit, Tok.render_tag, Tok.render_star, Tok.render_full, List.cons_append]
+            rw [matchesLoop]
+            simp [hc.1, tokMatches]
+      | tag x =>
+        have hx := (tagOk_iff x).1 htok
+        simp only [Tok.render_lit, Tok.render_tag, Tok.render_star, Tok.render_full, List.cons_append]
+        rw [matchesLoop_wild 36 (Or.inl rfl) x _ n _ (noDot_of_okc hx.1) (rrest_isRest ps) hn
+          (rrest_isRest ns), hrest]
+        simp [tokMatches]
+      | star =>
+        simp only [Tok.render_lit, Tok.render_tag, Tok.render_star, Tok.render_full, List.cons_append]
+        have := matchesLoop_wild 42 (Or.inr rfl) [] _ n _ NoDot.nil (rrest_isRest ps) hn
+          (rrest_isRest ns)
+        simp only [List.nil_append] at this
+        rw [List.nil_append, this, hrest]
+        simp [tokMatches]
+      | full =>
+        have := wfPat_full hp
+        subst this
+        obtain ⟨d, n', hr, hd, hn'⟩ := (Tok.ok_sOk hn).exists_cons
+        simp [hr, matchesLoop, tokMatches]
+
+/-! ## Values -/
+
+theorem valuesLoop_default (c : Nat) (p : Str) (d : Nat) (s : Str) (m : List (Str × Str))
+    (hc : c ≠ 36 ∧ c ≠ 42 ∧ c ≠ 62) :
+    valuesLoop (c :: p) (d :: s) m =
+      (valuesLit c p (d :: s)).bind (fun x => valuesLoop x.1 x.2 m) := by
+  rw [valuesLoop]
+  simp only [dollar, star, gt, hc.1, hc.2.1, hc.2.2, if_false]
+  split <;> simp [*]
+
+theorem valuesLit_ne {c d : Nat} (p s : Str) (h : c ≠ d) : valuesLit c p (d :: s) = none := by
+  rw [valuesLit.eq_def]; simp [h]
+
+theorem valuesLit_dot (p s : Str) : valuesLit 46 p (46 :: s) = some (p, s) := by
+  rw [valuesLit.eq_def]; simp
+
+theorem valuesLit_nil {c : Nat} (s : Str) : valuesLit c [] (c :: s) = some ([], s) := by
+  rw [valuesLit.eq_def]; simp
+
+theorem valuesLit_cons {c : Nat} (c' : Nat) (p s : Str) (h : c ≠ 46) :
+    valuesLit c (c' :: p) (c :: s) = if s.isEmpty then none else valuesLit c' p s := by
+  rw [valuesLit.eq_def]; simp [h]
+
+theorem valuesLoop_dot (P S : Str) (m : List (Str × Str)) :
+    valuesLoop (46 :: P) (46 :: S) m = valuesLoop P S m := by
+  rw [valuesLoop_default _ _ _ _ _ (by omega)]
+  simp [valuesLit_dot]
+
+theorem valuesLit_lit (m : List (Str × Str)) (c d : Nat) (a b P S : Str) (hc : c ≠ 46) (hd : d ≠ 46)
+    (ha : NoDot a) (hb : NoDot b) (hP : IsRest P) (hS : IsRest S) :
+    (valuesLit c (a ++ P) (d :: (b ++ S))).bind (fun x => valuesLoop x.1 x.2 m) =
+      if c :: a = d :: b then valuesLoop P S m else none := by
+  induction a generalizing c d b with
+  | nil =>
+    by_cases hcd : c = d
+    · subst hcd
+      rcases hP with rfl | ⟨P', rfl⟩
+      · cases b with
+        | nil => simp [valuesLit_nil, hc]
+        | cons e b => simp [valuesLit_nil, hc, valuesLoop]
+      · cases b with
+        | nil =>
+          rcases hS with rfl | ⟨S', rfl⟩
+          · simp [valuesLit_cons, hc, valuesLoop]
+          · simp [valuesLit_cons, hc, valuesLoop_dot, valuesLit_dot]
+        | cons e b =>
+          have := hb.head
+          simp [valuesLit_cons, hc, valuesLit_ne _ _ (Ne.symm this)]
+    · simp [valuesLit_ne _ _ hcd, hcd]
+  | cons c' a ih =>
+    have hc' := ha.head
+    by_cases hcd : c = d
+    · subst hcd
+      cases b with
+      | nil =>
+        rcases hS with rfl | ⟨S', rfl⟩
+        · simp [valuesLit_cons, hc]
+        · simp [valuesLit_cons, hc, valuesLit_ne _ _ hc']
+      | cons e b =>
+        have := ih c' e b hc' hb.head ha.tail hb.tail
+        simp only [List.cons_append] at this ⊢
+        rw [valuesLit_cons _ _ _ hc]
+        simp [this]
+    · simp [valuesLit_ne _ _ hcd, hcd]
+
+theorem tokValues_nil_right (ps : List Tok) (m : List (Str × Str)) :
+    tokValues ps [] m = if ps.isEmpty then some m else none := by
+  cases ps with
+  | nil => simp [tokValues]
+  | cons t r => simp [tokValues]
+
+theorem valuesLoop_rest (ps ns : List Tok) (m : List (Str × Str))
+    (ih : valuesLoop (render ps) (render ns) m = tokValues ps ns m) :
+    valuesLoop (rrest ps) (rrest ns) m = tokValues ps ns m := by
+  cases ps with
+  | nil =>
+    cases ns with
+    | nil => simp [valuesLoop, tokValues]
+    | cons n ns => simp [valuesLoop, tokValues, rrest]
+  | cons t r =>
+    cases ns with
+    | nil => simp [valuesLoop, tokValues_nil_right, rrest]
+    | cons n ns =>
+      rw [rrest_cons, rrest_cons, valuesLoop_dot]
+      exact ih
+
+theorem valuesLoop_tag (t P : Str) (n : Tok) (S : Str) (m : List (Str × Str))
+    (ht : NoDot t) (hP : IsRest P) (hn : n.sOk) (hS : IsRest S) :
+    valuesLoop (36 :: (t ++ P)) (n.render ++ S) m = valuesLoop P S (mapSet m t n.render) := by
+  obtain ⟨d, n', hr, hd, hn'⟩ := hn.exists_cons
+  have hdn : NoDot (d :: n') := by
+    intro x hx; simp at hx; rcases hx with rfl | hx
+    · exact hd
+    · exact hn' x hx
+  rw [hr, List.cons_append, valuesLoop]
+  have h1 : skipTok (t ++ P) = P := skipTok_append ht hP
+  have h2 : skipTok (d :: (n' ++ S)) = S := skipTok_append (n := d :: n') hdn hS
+  have h3 : takeTok (t ++ P) = t := takeTok_append ht hP
+  have h4 : takeTok (d :: (n' ++ S)) = d :: n' := takeTok_append (n := d :: n') hdn hS
+  simp [h1, h2, h3, h4]
+
+theorem valuesLoop_star (P : Str) (n : Tok) (S : Str) (m : List (Str × Str))
+    (hP : IsRest P) (hn : n.sOk) (hS : IsRest S) :
+    valuesLoop (42 :: P) (n.render ++ S) m = valuesLoop P S m := by
+  obtain ⟨d, n', hr, hd, hn'⟩ := hn.exists_cons
+  have hdn : NoDot (d :: n') := by
+    intro x hx; simp at hx; rcases hx with rfl | hx
+    · exact hd
+    · exact hn' x hx
+  rw [hr, List.cons_append, valuesLoop]
+  have h1 : skipTok P = P := skipTok_append (n := []) NoDot.nil hP
+  have h2 : skipTok (d :: (n' ++ S)) = S := skipTok_append (n := d :: n') hdn hS
+  simp [h1, h2]
+
+theorem valuesLoop_spec (pt st : List Tok) (m : List (Str × Str)) (hp : wfPat pt = true)
+    (hs : ∀ n ∈ st, n.sOk) :
+    valuesLoop (render pt) (render st) m = tokValues pt st m := by
+  induction pt generalizing st m with
+  | nil =>
+    cases st with
+    | nil => simp [valuesLoop, tokValues]
+    | cons n ns =>
+      have := render_cons_ne_nil (r := ns) (hs n (List.mem_cons_self ..))
+      simp [valuesLoop, tokValues, this]
+  | cons t ps ih =>
+    have htok := wfPat_head hp
+    cases st with
+    | nil =>
+      have := render_cons_ne_nil (r := ps) (Tok.ok_sOk htok)
+      cases hr : render (t :: ps) with
+      | nil => exact absurd hr this
+      | cons c p => simp [valuesLoop, tokValues_nil_right]
+    | cons n ns =>
+      have hn := hs n (List.mem_cons_self ..)
+      have hrest := fun m => valuesLoop_rest ps ns m
+        (ih ns m (wfPat_tail hp) (fun x hx => hs x (List.mem_cons_of_mem _ hx)))
+      rw [render_cons, render_cons]
+      cases t with
+      | lit a =>
+        cases a with
+        | nil => simp [Tok.ok, litOk] at htok
+        | cons c a =>
+          have hc := (litOk_cons_iff c a).1 htok
+          have ha : NoDot a := noDot_of_okc hc.2
+          simp only [Tok.render_lit, List.cons_append]
+          cases n with
+          | lit b =>
+            cases b with
+            | nil => exact absurd rfl hn.1
+            | cons d b =>
+              have hdb : NoDot (d :: b) := hn.2
+              simp only [Tok.render_lit, List.cons_append]
+              rw [valuesLoop_default _ _ _ _ _ (by omega),
+                valuesLit_lit m c d a b _ _ (by omega) hdb.head ha hdb.tail
+                  (rrest_isRest ps) (rrest_isRest ns), hrest, tokValues]
+          | tag x =>
+            simp only [Tok.render_tag, List.cons_append]
+            rw [valuesLoop_default _ _ _ _ _ (by omega)]
+            simp [valuesLit_ne _ _ hc.1.2.2.2.2.1, valuesLit_ne _ _ hc.1.2.2.2.2.2.1, valuesLit_ne _ _ hc.1.2.2.2.2.2.2, tokValues]
+          | star =>
+            simp only [Tok.render_star, List.cons_append]
+            rw [valuesLoop_default _ _ _ _ _ (by omega)]
+            simp [valuesLit_ne _ _ hc.1.2.2.2.2.1, valuesLit_ne _ _ hc.1.2.2.2.2.2.1, valuesLit_ne _ _ hc.1.2.2.2.2.2.2, tokValues]
+          | full =>
+            simp only [Tok.render_full, List.cons_append]
+            rw [valuesLoop_default _ _ _ _ _ (by omega)]
+            simp [valuesLit_ne _ _ hc.1.2.2.2.2.1, valuesLit_ne _ _ hc.1.2.2.2.2.2.1, valuesLit_ne _ _ hc.1.2.2.2.2.2.2, tokValues]
+      | tag x =>
+        have hx := (tagOk_iff x).1 htok
+        simp only [Tok.render_tag, List.cons_append]
+        rw [valuesLoop_tag x _ n _ m (noDot_of_okc hx.1) (rrest_isRest ps) hn (rrest_isRest ns),
+          hrest, tokValues]
+      | star =>
+        simp only [Tok.render_star, List.cons_append, List.nil_append]
+        rw [valuesLoop_star _ n _ m (rrest_isRest ps) hn (rrest_isRest ns), hrest]
+        simp [tokValues]
+      | full =>
+        have := wfPat_full hp
+        subst this
+        obtain ⟨d, n', hr, hd, hn'⟩ := hn.exists_cons
+        simp [hr, valuesLoop, tokValues]
+
+/-! ## names -/
+
+theorem isName_iff (st : List Tok) :
+    isName st = true ↔ st ≠ [] ∧ ∀ n ∈ st, ∃ s, n = .lit s ∧ litOk s = true := by
+  simp only [isName, Bool.and_eq_true, Bool.not_eq_true', List.isEmpty_eq_false_iff,
+    List.all_eq_true]
+  constructor
+  · rintro ⟨h1, h2⟩
+    refine ⟨h1, fun n hn => ?_⟩
+    have := h2 n hn
+    cases n <;> simp_all
+  · rintro ⟨h1, h2⟩
+    refine ⟨h1, fun n hn => ?_⟩
+    obtain ⟨s, rfl, hs⟩ := h2 n hn
+    simpa using hs
+
+theorem isName_ok {st : List Tok} (h : isName st = true) : ∀ n ∈ st, n.ok = true := by
+  intro n hn
+  obtain ⟨s, rfl, hs⟩ := ((isName_iff st).1 h).2 n hn
+  exact hs
+
+theorem isName_sOk {st : List Tok} (h : isName st = true) : ∀ n ∈ st, n.sOk :=
+  fun n hn => Tok.ok_sOk (isName_ok h n hn)
+
+theorem isName_ne_full {st : List Tok} (h : isName st = true) : ∀ n ∈ st, n ≠ .full := by
+  intro n hn
+  obtain ⟨s, rfl, hs⟩ := ((isName_iff st).1 h).2 n hn
+  simp
+
+theorem tokMatches_eq_tokValues_isSome (pt st : List Tok) (m : List (Str × Str))
+    (hs : ∀ n ∈ st, n ≠ .full) : tokMatches pt st = (tokValues pt st m).isSome := by
+  induction pt generalizing st m with
+  | nil => cases st <;> simp [tokMatches, tokValues]
+  | cons t ps ih =>
+    cases st with
+    | nil => simp [tokMatches_nil_right, tokValues_nil_right]
+    | cons n ns =>
+      have hn := hs n (List.mem_cons_self ..)
+      have ih' := fun m => ih ns m (fun x hx => hs x (List.mem_cons_of_mem _ hx))
+      cases t with
+      | lit a =>
+        cases n with
+        | lit b =>
+          by_cases hab : a = b
+          · simp [tokMatches, tokValues, hab, ih' m]
+          · simp [tokMatches, tokValues, hab]
+        | tag x => simp [tokMatches, tokValues]
+        | star => simp [tokMatches, tokValues]
+        | full => simp [tokMatches, tokValues]
+      | tag x => simp [tokMatches, tokValues, hn, ih' (mapSet m x n.render)]
+      | star => simp [tokMatches, tokValues, hn, ih' m]
+      | full =>
+        cases ps with
+        | nil => simp [tokMatches, tokValues]
+        | cons p ps => simp [tokMatches, tokValues]
+
+theorem wfPat_of_all {st : List Tok} (h : ∀ n ∈ st, n.ok = true ∧ n ≠ .full) : wfPat st = true := by
+  induction st with
+  | nil => rfl
+  | cons t r ih =>
+    rw [wfPat_cons]
+    have ht := h t (List.mem_cons_self ..)
+    simp [ht.1, ht.2, ih (fun n hn => h n (List.mem_cons_of_mem _ hn))]
+
+theorem wfPat_of_isName {st : List Tok} (h : isName st = true) : wfPat st = true :=
+  wfPat_of_all (fun n hn => ⟨isName_ok h n hn, isName_ne_full h n hn⟩)
+
+/-! ## resource ids -/
+
+theorem ridLoop_cons (b : Bool) (c : Nat) (r : Str)
+    (hc : 33 ≤ c ∧ c ≤ 126 ∧ c ≠ 63 ∧ c ≠ 46 ∧ c ≠ 42 ∧ c ≠ 62) :
+    isValidRIDLoop b (c :: r) = isValidRIDLoop false r := by
+  rw [isValidRIDLoop]
+  have h1 : ¬ c < 33 := by omega
+  have h2 : ¬ c > 126 := by omega
+  simp [hc, h1, h2]
+
+theorem ridLoop_append (a P : Str)
+    (ha : ∀ x ∈ a, 33 ≤ x ∧ x ≤ 126 ∧ x ≠ 63 ∧ x ≠ 46 ∧ x ≠ 42 ∧ x ≠ 62) :
+    isValidRIDLoop false (a ++ P) = isValidRIDLoop false P := by
+  induction a with
+  | nil => rfl
+  | cons c a ih =>
+    rw [List.cons_append, ridLoop_cons _ _ _ (ha c (List.mem_cons_self ..))]
+    exact ih (fun x hx => ha x (List.mem_cons_of_mem _ hx))
+
+theorem isValidPart_rid (p : Str) (h : isValidPart p = true) : isValidRID p = true := by
+  cases p with
+  | nil => simp [isValidPart] at h
+  | cons c r =>
+    have hall : ∀ x ∈ c :: r, 33 ≤ x ∧ x ≤ 126 ∧ x ≠ 63 ∧ x ≠ 46 ∧ x ≠ 42 ∧ x ≠ 62 := by
+      simp [isValidPart] at h
+      intro x hx
+      simp at hx
+      rcases hx with rfl | hx
+      · omega
+      · have := h.2 x hx; omega
+    have := ridLoop_append (c :: r) [] hall
+    rw [List.append_nil] at this
+    unfold isValidRID
+    rw [ridLoop_cons _ _ _ (hall c (List.mem_cons_self ..))]
+    rw [ridLoop_cons _ _ _ (hall c (List.mem_cons_self ..))] at this
+    rw [this]; rfl
+
+theorem name_rid (st : List Tok) (hne : st ≠ [])
+    (h : ∀ n ∈ st, ∃ s, n = .lit s ∧ litOk s = true) : isValidRIDLoop true (render st) = true := by
+  induction st with
+  | nil => exact absurd rfl hne
+  | cons n ns ih =>
+    obtain ⟨s, rfl, hs⟩ := h _ (List.mem_cons_self ..)
+    cases s with
+    | nil => simp [litOk] at hs
+    | cons c a =>
+      have hc := (litOk_cons_iff c a).1 hs
+      rw [render_cons, Tok.render_lit, List.cons_append, ridLoop_cons _ _ _ (by omega),
+        ridLoop_append _ _ (fun x hx => (okc_iff x).1 (hc.2 x hx))]
+      cases ns with
+      | nil => rfl
+      | cons n' ns' =>
+        rw [rrest_cons, isValidRIDLoop]
+        simp
+        exact ih (by simp) (fun x hx => h x (List.mem_cons_of_mem _ hx))
+
+/-! ## IndexWildcard -/
+
+/-- byte offset of the first wildcard token (same as `Props.C17.firstWild`) -/
+def firstWildL : List Tok → Nat → Int
+  | [], _ => -1
+  | .lit s :: r, off => firstWildL r (off + s.length + 1)
+  | _ :: _, off => off
+
+theorem iwLoop_append (i : Nat) (a P : Str) (ha : NoDot a) :
+    indexWildcardLoop false i (a ++ P) = indexWildcardLoop false (i + a.length) P := by
+  induction a generalizing i with
+  | nil => rfl
+  | cons c a ih =>
+    have := ha.head
+    rw [List.cons_append, indexWildcardLoop]
+    simp [this, ih (i + 1) ha.tail]
+    congr 1; omega
+
+theorem iwLoop_spec (pt : List Tok) (i : Nat) (hp : wfPat pt = true) :
+    indexWildcardLoop true i (render pt) = firstWildL pt i := by
+  induction pt generalizing i with
+  | nil => rfl
+  | cons t ps ih =>
+    have htok := wfPat_head hp
+    rw [render_cons]
+    cases t with
+    | lit s =>
+      cases s with
+      | nil => simp [Tok.ok, litOk] at htok
+      | cons c a =>
+        have hc := (litOk_cons_iff c a).1 htok
+        rw [Tok.render_lit, List.cons_append, indexWildcardLoop]
+        simp [hc.1, iwLoop_append _ _ _ (noDot_of_okc hc.2), firstWildL]
+        cases ps with
+        | nil => simp [indexWildcardLoop, firstWildL]
+        | cons p ps =>
+          rw [rrest_cons, indexWildcardLoop]
+          simp
+          rw [ih _ (wfPat_tail hp)]
+          congr 1; omega
+    | tag x => simp [indexWildcardLoop, firstWildL]
+    | star => simp [indexWildcardLoop, firstWildL]
+    | full =>
+      have := wfPat_full hp
+      subst this
+      simp [indexWildcardLoop, firstWildL]
+
+/-! ## IsValid / parse -/
+
+theorem litOk_cons_eq (c : Nat) (r : Str) :
+    litOk (c :: r) = (okChar c && c ≠ 36 && c ≠ 42 && c ≠ 62 && r.all okc) := rfl
+
+theorem tagOk_eq (n : Str) : tagOk n = (n.all okc && n.any (fun x => x ≠ 36)) := rfl
+
+theorem splitDots_ne_nil (r : Str) : splitDots r ≠ [] := by
+  induction r with
+  | nil => simp [splitDots]
+  | cons c r ih =>
+    unfold splitDots
+    split
+    · simp
+    · split <;> simp
+
+theorem splitDots_exists (r : Str) : ∃ t ts, splitDots r = t :: ts := by
+  cases h : splitDots r with
+  | nil => exact absurd h (splitDots_ne_nil r)
+  | cons t ts => exact ⟨t, ts, rfl⟩
+
+theorem splitDots_dot (r : Str) : splitDots (46 :: r) = [] :: splitDots r := by
+  simp [splitDots]
+
+theorem splitDots_cons {c : Nat} {r t : Str} {ts : List Str} (hc : c ≠ 46)
+    (h : splitDots r = t :: ts) : splitDots (c :: r) = (c :: t) :: ts := by
+  simp [splitDots, hc, h]
+
+theorem splitDots_singleton_nil {r : Str} {ts : List Str} (h : splitDots r = [] :: ts) :
+    ts = [] ↔ r = [] := by
+  cases r with
+  | nil => simp [splitDots] at h; simp [h]
+  | cons c r =>
+    by_cases hc : c = 46
+    · subst hc
+      rw [splitDots_dot] at h
+      simp at h
+      simp [← h, splitDots_ne_nil]
+    · obtain ⟨t', ts', h'⟩ := splitDots_exists r
+      rw [splitDots_cons hc h'] at h
+      simp at h
+
+theorem isValidLoop_inv (r : Str) : ∀ t ts, splitDots r = t :: ts →
+    isValidLoop true false false r = wfPat (parseTok t :: ts.map parseTok) ∧
+    isValidLoop false true false r = (t.isEmpty && wfPat (ts.map parseTok)) ∧
+    isValidLoop false false true r =
+      (t.all okc && t.any (fun x => x ≠ 36) && wfPat (ts.map parseTok)) ∧
+    isValidLoop false false false r = (t.all okc && wfPat (ts.map parseTok)) := by
+  induction r with
+  | nil =>
+    intro t ts h
+    simp [splitDots] at h
+    obtain ⟨rfl, rfl⟩ := h
+    simp [isValidLoop, parseTok, wfPat, Tok.ok, litOk]
+  | cons c r ih =>
+    intro t ts h
+    obtain ⟨t', ts', h'⟩ := splitDots_exists r
+    obtain ⟨i1, i2, i3, i4⟩ := ih t' ts' h'
+    by_cases hdot : c = 46
+    · subst hdot
+      rw [splitDots_dot, h'] at h
+      simp at h
+      obtain ⟨rfl, rfl⟩ := h
+      simp [isValidLoop, i1, parseTok, wfPat_cons, Tok.ok, litOk]
+    · rw [splitDots_cons hdot h'] at h
+      simp at h
+      obtain ⟨rfl, rfl⟩ := h
+      by_cases h36 : c = 36
+      · subst h36
+        simp [isValidLoop, i3, i4, parseTok, wfPat_cons, Tok.ok, tagOk_eq, okc, okChar]
+      · by_cases h42 : c = 42
+        · subst h42
+          cases t' with
+          | nil => simp [isValidLoop, i2, parseTok, wfPat_cons, Tok.ok, okc, okChar]
+          | cons e t' => simp [isValidLoop, i2, parseTok, wfPat_cons, Tok.ok, litOk_cons_eq, okc, okChar]
+        · by_cases h62 : c = 62
+          · subst h62
+            cases t' with
+            | nil =>
+              have := splitDots_singleton_nil h'
+              by_cases hr : r = []
+              · have hts := this.2 hr
+                subst hr; subst hts
+                simp [isValidLoop, parseTok, wfPat, Tok.ok, okc, okChar]
+              · have hts : ts' ≠ [] := fun h => hr (this.1 h)
+                simp [isValidLoop, parseTok, wfPat_cons, Tok.ok, okc, okChar, hr, hts]
+            | cons e t' =>
+              have hr : r ≠ [] := by rintro rfl; simp [splitDots] at h'
+              simp [isValidLoop, parseTok, wfPat_cons, Tok.ok, litOk_cons_eq, okc, okChar, hr]
+          · by_cases hbad : c < 33 ∨ c > 126 ∨ c = 63
+            · have : okChar c = false := by simp [okChar]; omega
+              simp [isValidLoop, hdot, h36, h42, h62, hbad, parseTok, wfPat_cons, Tok.ok, litOk_cons_eq, okc, this]
+              intros; omega
+            · have : okChar c = true := by simp [okChar]; omega
+              have hb1 : ¬ c < 33 := by omega
+              have hb2 : ¬ 126 < c := by omega
+              have hb3 : ¬ c = 63 := by omega
+              simp [isValidLoop, hdot, h36, h42, h62, hb1, hb2, hb3, i4, parseTok, wfPat_cons, Tok.ok, litOk_cons_eq, okc, this]
+
+theorem isValid_eq_parse (p : Str) : isValid p = (parse p).isSome := by
+  cases p with
+  | nil => simp [isValid, parse]
+  | cons c r =>
+    obtain ⟨t, ts, h⟩ := splitDots_exists (c :: r)
+    have := (isValidLoop_inv (c :: r) t ts h).1
+    simp only [isValid, parse, List.isEmpty_cons, Bool.false_eq_true, if_false, this, h, List.map_cons]
+    split <;> simp [*]
+
+theorem joinDots_cons_cons (a b : Str) (r : List Str) :
+    joinDots (a :: b :: r) = a ++ 46 :: joinDots (b :: r) := rfl
+
+theorem joinDots_splitDots (p : Str) : joinDots (splitDots p) = p := by
+  induction p with
+  | nil => rfl
+  | cons c r ih =>
+    obtain ⟨t, ts, h⟩ := splitDots_exists r
+    by_cases hc : c = 46
+    · subst hc
+      rw [splitDots_dot, h, joinDots_cons_cons, ← h, ih]; rfl
+    · rw [splitDots_cons hc h]
+      rw [h] at ih
+      cases ts with
+      | nil => simp [joinDots] at ih ⊢; exact ih
+      | cons t' ts' =>
+        rw [joinDots_cons_cons] at ih ⊢
+        simp [ih]
+
+theorem render_parseTok (t : Str) : (parseTok t).render = t := by
+  unfold parseTok
+  split
+  · rfl
+  · split
+    · simp [*]
+    · split
+      · rename_i h; simp [h.1, h.2]
+      · split
+        · rename_i h; simp [h.1, h.2]
+        · rfl
+
+theorem parseTok_render {t : Tok} (h : t.ok = true) : parseTok t.render = t := by
+  cases t with
+  | lit s =>
+    cases s with
+    | nil => simp [Tok.ok, litOk] at h
+    | cons c r =>
+      have hc := (litOk_cons_iff c r).1 h
+      simp [parseTok, hc.1]
+  | tag n => simp [parseTok]
+  | star => simp [parseTok]
+  | full => simp [parseTok]
+
+theorem render_map_parseTok (l : List Str) : render (l.map parseTok) = joinDots l := by
+  simp [render, List.map_map, Function.comp_def, render_parseTok]
+
+theorem parse_some {p : Str} {ts : List Tok} (hne : p ≠ []) (h : parse p = some ts) :
+    wfPat ts = true ∧ render ts = p ∧ ts ≠ [] := by
+  simp only [parse, List.isEmpty_iff, hne, if_false] at h
+  split at h
+  · rename_i hw
+    simp at h
+    subst h
+    refine ⟨hw, ?_, ?_⟩
+    · rw [render_map_parseTok, joinDots_splitDots]
+    · simp [splitDots_ne_nil]
+  · simp at h
+
+theorem splitDots_noDot {a : Str} (ha : NoDot a) : splitDots a = [a] := by
+  induction a with
+  | nil => rfl
+  | cons c a ih => exact splitDots_cons ha.head (ih ha.tail)
+
+theorem splitDots_append_dot {a : Str} (P : Str) (ha : NoDot a) :
+    splitDots (a ++ 46 :: P) = a :: splitDots P := by
+  induction a with
+  | nil => exact splitDots_dot P
+  | cons c a ih => exact splitDots_cons ha.head (ih ha.tail)
+
+theorem splitDots_render (t : Tok) (ps : List Tok) (h : ∀ n ∈ t :: ps, n.sOk) :
+    splitDots (render (t :: ps)) = (t :: ps).map Tok.render := by
+  induction ps generalizing t with
+  | nil => simpa [render, joinDots] using splitDots_noDot (h t (List.mem_cons_self ..)).2
+  | cons p ps ih =>
+    rw [render_cons, rrest_cons, splitDots_append_dot _ (h t (List.mem_cons_self ..)).2,
+      ih p (fun n hn => h n (List.mem_cons_of_mem _ hn))]
+    simp
+
+theorem parse_render_of_wf (ts : List Tok) (h : wfPat ts = true) (hne : ts ≠ []) :
+    parse (render ts) = some ts := by
+  cases ts with
+  | nil => exact absurd rfl hne
+  | cons t ps =>
+    have hok := wfPat_all_ok h
+    have hs : ∀ n ∈ t :: ps, n.sOk := fun n hn => Tok.ok_sOk (hok n hn)
+    have hne' := render_cons_ne_nil (r := ps) (hs t (List.mem_cons_self ..))
+    have hmap : ((t :: ps).map Tok.render).map parseTok = t :: ps := by
+      rw [List.map_map]
+      conv => rhs; rw [← List.map_id (t :: ps)]
+      apply List.map_congr_left
+      intro n hn
+      exact parseTok_render (hok n hn)
+    simp only [parse, List.isEmpty_iff, hne', if_false, splitDots_render t ps hs, hmap, h, if_true]
+
+theorem firstWildL_eq (ts : List Tok) (off : Nat) :
+    (firstWildL ts off == -1) = ts.all (fun t => match t with | .lit _ => true | _ => false) := by
+  induction ts generalizing off with
+  | nil => simp [firstWildL]
+  | cons t r ih =>
+    cases t with
+    | lit s => simp [firstWildL, ih]
+    | tag n => simp [firstWildL]
+    | star => simp [firstWildL]
+    | full => simp [firstWildL]
+
+theorem isValidPath_eq (p : Str) :
+    isValidPath p = (p.isEmpty || match parse p with
+      | some ts => ts.all (fun t => match t with | .lit _ => true | _ => false)
+      | none => false) := by
+  cases p with
+  | nil => simp [isValidPath]
+  | cons c r =>
+    simp only [isValidPath, List.isEmpty_cons, Bool.false_or, isValid_eq_parse]
+    cases hp : parse (c :: r) with
+    | none => simp
+    | some ts =>
+      obtain ⟨hw, hr, _⟩ := parse_some (by simp) hp
+      have := iwLoop_spec ts 0 hw
+      rw [hr] at this
+      simp only [Option.isSome_some, Bool.true_and, indexWildcard, this, firstWildL_eq]
+
+theorem isValidPath_rid (p : Str) (h : isValidPath p = true) (hne : p ≠ []) :
+    isValidRID p = true := by
+  rw [isValidPath_eq] at h
+  have hne' : p.isEmpty = false := by simpa using hne
+  rw [hne', Bool.false_or] at h
+  cases hp : parse p with
+  | none => simp [hp] at h
+  | some ts =>
+    rw [hp] at h
+    obtain ⟨hw, hr, hts⟩ := parse_some hne hp
+    rw [← hr]
+    apply name_rid ts hts
+    intro n hn
+    have hok := wfPat_all_ok hw n hn
+    have := List.all_eq_true.1 h n hn
+    cases n <;> simp_all [Tok.ok]
+
+/-! ## Replace -/
+
+/-- token-level substitution: a tag with a value becomes that value as a literal -/
+def substTok (f : Str → Option Str) : Tok → Tok
+  | .tag t => match f t with
+    | some v => .lit v
+    | none => .tag t
+  | t => t
+
+theorem tokReplace_eq (f : Str → Option Str) (ts : List Tok) :
+    tokReplace f ts = (ts.map (substTok f)).map Tok.render := by
+  induction ts with
+  | nil => rfl
+  | cons t r ih =>
+    cases t with
+    | tag x => cases h : f x <;> simp [tokReplace, substTok, h, ih]
+    | lit s => simp [tokReplace, substTok, ih]
+    | star => simp [tokReplace, substTok, ih]
+    | full => simp [tokReplace, substTok, ih]
+
+theorem replaceLoop_append (f : Str → Option Str) (a P : Str) (ha : NoDot a) :
+    replaceLoop f false (a ++ P) = a ++ replaceLoop f false P := by
+  induction a with
+  | nil => rfl
+  | cons c a ih =>
+    have := ha.head
+    rw [List.cons_append, replaceLoop]
+    simp [this, ih ha.tail]
+
+theorem replaceLoop_rest (f : Str → Option Str) (b : Bool) (ps : List Tok)
+    (ih : replaceLoop f true (render ps) = render (ps.map (substTok f))) :
+    replaceLoop f b (rrest ps) = rrest (ps.map (substTok f)) := by
+  cases ps with
+  | nil => simp [replaceLoop]
+  | cons p ps =>
+    rw [rrest_cons, replaceLoop, List.map_cons, rrest_cons, ← List.map_cons, ← ih]
+    simp
+
+theorem replaceLoop_spec (f : Str → Option Str) (pt : List Tok) (hp : wfPat pt = true) :
+    replaceLoop f true (render pt) = render (pt.map (substTok f)) := by
+  induction pt with
+  | nil => simp [replaceLoop]
+  | cons t ps ih =>
+    have htok := wfPat_head hp
+    have hrest := fun b => replaceLoop_rest f b ps (ih (wfPat_tail hp))
+    rw [List.map_cons, render_cons, render_cons]
+    cases t with
+    | lit s =>
+      cases s with
+      | nil => simp [Tok.ok, litOk] at htok
+      | cons c a =>
+        have hc := (litOk_cons_iff c a).1 htok
+        rw [Tok.render_lit, List.cons_append, replaceLoop]
+        simp [hc.1, replaceLoop_append f _ _ (noDot_of_okc hc.2), hrest, substTok]
+    | tag x =>
+      have hx := (tagOk_iff x).1 htok
+      have h1 := skipTok_append (noDot_of_okc hx.1) (rrest_isRest ps)
+      have h2 := takeTok_append (noDot_of_okc hx.1) (rrest_isRest ps)
+      rw [Tok.render_tag, List.cons_append, replaceLoop]
+      simp only [dollar, if_true, h1, h2, hrest, substTok]
+      cases f x <;> simp
+    | star =>
+      rw [Tok.render_star, List.cons_append, List.nil_append, replaceLoop]
+      simp [hrest, substTok]
+    | full =>
+      have := wfPat_full hp
+      subst this
+      simp [replaceLoop, substTok]
+
+/-! ## the Go map -/
+
+theorem mapGet_cons (e : Str × Str) (m : List (Str × Str)) (k : Str) :
+    mapGet (e :: m) k = if e.1 = k then some e.2 else mapGet m k := by
+  by_cases h : e.1 = k <;> simp [mapGet, List.find?_cons, h]
+
+theorem mapGet_map_same (m : List (Str × Str)) (k v : Str)
+    (h : m.any (fun x => x.1 == k) = true) :
+    mapGet (m.map (fun e => if e.1 == k then (k, v) else e)) k = some v := by
+  induction m with
+  | nil => simp at h
+  | cons e m ih =>
+    rw [List.map_cons, mapGet_cons]
+    by_cases he : e.1 = k
+    · simp [he]
+    · have h' : m.any (fun x => x.1 == k) = true := by simpa [he] using h
+      have := ih h'
+      simpa [he] using this
+
+theorem mapGet_map_other (m : List (Str × Str)) (k v k' : Str) (hk : k' ≠ k) :
+    mapGet (m.map (fun e => if e.1 == k then (k, v) else e)) k' = mapGet m k' := by
+  induction m with
+  | nil => rfl
+  | cons e m ih =>
+    rw [List.map_cons, mapGet_cons, mapGet_cons, ih]
+    by_cases he : e.1 = k
+    · have : ¬ e.1 = k' := fun h => hk (h.symm.trans he)
+      simp [he, this, Ne.symm hk]
+    · simp [he]
+
+theorem mapGet_append_single (m : List (Str × Str)) (k v k' : Str) :
+    mapGet (m ++ [(k, v)]) k' = (mapGet m k').or (if k = k' then some v else none) := by
+  induction m with
+  | nil => simp [mapGet_cons]; rfl
+  | cons e m ih =>
+    rw [List.cons_append, mapGet_cons, mapGet_cons, ih]
+    split <;> simp
+
+theorem mapGet_none_of_any (m : List (Str × Str)) (k : Str)
+    (h : ¬ m.any (fun x => x.1 == k) = true) : mapGet m k = none := by
+  induction m with
+  | nil => rfl
+  | cons e m ih =>
+    rw [mapGet_cons]
+    by_cases he : e.1 = k
+    · simp [he] at h
+    · have h' : ¬ m.any (fun x => x.1 == k) = true := by simpa [he] using h
+      simp [he, ih h']
+
+theorem mapGet_mapSet_same (m : List (Str × Str)) (k v : Str) :
+    mapGet (mapSet m k v) k = some v := by
+  unfold mapSet
+  split
+  · rename_i h; exact mapGet_map_same m k v h
+  · rename_i h
+    rw [mapGet_append_single, mapGet_none_of_any m k h]; simp
+
+theorem mapGet_mapSet_other (m : List (Str × Str)) (k v k' : Str) (hk : k' ≠ k) :
+    mapGet (mapSet m k v) k' = mapGet m k' := by
+  unfold mapSet
+  split
+  · exact mapGet_map_other m k v k' hk
+  · rw [mapGet_append_single]; simp [Ne.symm hk]
+
+/-! ## tokValues facts -/
+
+theorem tokValues_keeps (pt st : List Tok) (m0 m : List (Str × Str)) (k : Str)
+    (h : tokValues pt st m0 = some m) (hk : k ∉ tagsOf pt) : mapGet m k = mapGet m0 k := by
+  induction pt generalizing st m0 with
+  | nil =>
+    cases st with
+    | nil => simp [tokValues] at h; rw [h]
+    | cons n ns => simp [tokValues] at h
+  | cons t ps ih =>
+    cases st with
+    | nil => simp [tokValues_nil_right] at h
+    | cons n ns =>
+      cases t with
+      | lit a =>
+        cases n with
+        | lit b =>
+          simp only [tokValues] at h
+          split at h
+          · exact ih ns m0 h (by simpa [tagsOf] using hk)
+          · simp at h
+        | tag x => simp [tokValues] at h
+        | star => simp [tokValues] at h
+        | full => simp [tokValues] at h
+      | tag x =>
+        simp only [tokValues] at h
+        simp only [tagsOf, List.mem_cons, not_or] at hk
+        rw [ih ns _ h hk.2, mapGet_mapSet_other _ _ _ _ hk.1]
+      | star =>
+        simp only [tokValues] at h
+        exact ih ns m0 h (by simpa [tagsOf] using hk)
+      | full =>
+        cases ps with
+        | nil => simp [tokValues] at h; rw [h]
+        | cons p ps => simp [tokValues] at h
+
+theorem substTok_none (f : Str → Option Str) (hf : ∀ t, f t = none) (pt : List Tok) :
+    pt.map (substTok f) = pt := by
+  induction pt with
+  | nil => rfl
+  | cons t r ih => cases t <;> simp [substTok, hf, ih]
+
+/-- values extracted from a name, substituted back -/
+theorem tokValues_subst (f : Str → Option Str) (pt st : List Tok) (m0 m : List (Str × Str))
+    (hp : wfPat pt = true) (hs : ∀ n ∈ st, ∃ s, n = .lit s ∧ litOk s = true)
+    (hd : distinctTags pt = true) (hv : tokValues pt st m0 = some m)
+    (hf : ∀ t ∈ tagsOf pt, f t = mapGet m t) :
+    wfPat (pt.map (substTok f)) = true ∧ tokMatches (pt.map (substTok f)) st = true ∧
+      (hasAnon pt = false → pt.map (substTok f) = st) := by
+  induction pt generalizing st m0 with
+  | nil =>
+    cases st with
+    | nil => simp [wfPat, tokMatches]
+    | cons n ns => simp [tokValues] at hv
+  | cons t ps ih =>
+    cases st with
+    | nil => simp [tokValues_nil_right] at hv
+    | cons n ns =>
+      obtain ⟨b, rfl, hb⟩ := hs n (List.mem_cons_self ..)
+      have hs' : ∀ n ∈ ns, ∃ s, n = Tok.lit s ∧ litOk s = true :=
+        fun x hx => hs x (List.mem_cons_of_mem _ hx)
+      have hp' := wfPat_tail hp
+      rw [List.map_cons, wfPat_cons]
+      cases t with
+      | lit a =>
+        simp only [tokValues] at hv
+        split at hv
+        · rename_i hab
+          subst hab
+          have htok := wfPat_head hp
+          obtain ⟨i1, i2, i3⟩ := ih ns m0 hp' hs' (by simpa [distinctTags] using hd) hv
+            (by simpa [tagsOf] using hf)
+          refine ⟨by simp [substTok, htok, i1], by simp [substTok, tokMatches, i2], ?_⟩
+          intro ha
+          have : hasAnon ps = false := by simpa [hasAnon] using ha
+          simp [substTok, i3 this]
+        · simp at hv
+      | tag x =>
+        simp only [tokValues] at hv
+        simp only [distinctTags, Bool.and_eq_true, Bool.not_eq_true', List.contains_eq_mem,
+          decide_eq_false_iff_not] at hd
+        have hx : f x = some b := by
+          rw [hf x (by simp [tagsOf]), tokValues_keeps ps ns _ m x hv hd.1, mapGet_mapSet_same]
+          rfl
+        obtain ⟨i1, i2, i3⟩ := ih ns _ hp' hs' hd.2 hv
+          (fun t ht => hf t (by simp [tagsOf, ht]))
+        refine ⟨by simp [substTok, hx, Tok.ok, hb, i1], by simp [substTok, hx, tokMatches, i2], ?_⟩
+        intro ha
+        have : hasAnon ps = false := by simpa [hasAnon] using ha
+        simp [substTok, hx, i3 this]
+      | star =>
+        simp only [tokValues] at hv
+        obtain ⟨i1, i2, i3⟩ := ih ns m0 hp' hs' (by simpa [distinctTags] using hd) hv
+          (by simpa [tagsOf] using hf)
+        refine ⟨by simp [substTok, Tok.ok, i1], by simp [substTok, tokMatches, i2], ?_⟩
+        intro ha
+        simp [hasAnon] at ha
+      | full =>
+        have := wfPat_full hp
+        subst this
+        refine ⟨by simp [substTok, Tok.ok, wfPat], by simp [substTok, tokMatches], ?_⟩
+        intro ha
+        simp [hasAnon] at ha
+
+theorem replace_values_tok (pt st : List Tok) (m : List (Str × Str))
+    (hp : wfPat pt = true) (hs : isName st = true) (hd : distinctTags pt = true)
+    (hv : values (render pt) (render st) = some m) :
+    «matches» (replaceTags (render pt) m) (render st) = true ∧
+    (hasAnon pt = false → replaceTags (render pt) m = render st) := by
+  have hv' : tokValues pt st [] = some m := by
+    rw [← valuesLoop_spec pt st [] hp (isName_sOk hs)]; exact hv
+  have hr : replaceTags (render pt) m = render (pt.map (substTok (mapGet m))) := by
+    unfold replaceTags
+    split
+    · rename_i hm
+      have : m = [] := by simpa using hm
+      subst this
+      rw [substTok_none (mapGet []) (fun _ => rfl)]
+    · exact replaceLoop_spec _ pt hp
+  obtain ⟨i1, i2, i3⟩ := tokValues_subst (mapGet m) pt st [] m hp ((isName_iff st).1 hs).2 hd hv'
+    (fun _ _ => rfl)
+  rw [hr]
+  refine ⟨?_, fun ha => by rw [i3 ha]⟩
+  unfold «matches»
+  rw [matchesLoop_spec _ st i1 (isName_ok hs)]
+  exact i2
+
+/-- `ReplaceTag` then `Values` gives the value back -/
+theorem tokValues_replaceTag (pt : List Tok) (t id : Str) (m0 : List (Str × Str))
+    (hp : wfPat pt = true) (hd : distinctTags pt = true) :
+    ∃ m, tokValues pt (pt.map (substTok (fun t' => if t = t' then some id else none))) m0 = some m ∧
+      (t ∈ tagsOf pt → mapGet m t = some id) := by
+  induction pt generalizing m0 with
+  | nil => exact ⟨m0, by simp [tokValues], by simp [tagsOf]⟩
+  | cons x ps ih =>
+    have hp' := wfPat_tail hp
+    cases x with
+    | lit a =>
+      obtain ⟨m, h1, h2⟩ := ih m0 hp' (by simpa [distinctTags] using hd)
+      exact ⟨m, by simp [substTok, tokValues, h1], by simpa [tagsOf] using h2⟩
+    | tag x =>
+      simp only [distinctTags, Bool.and_eq_true, Bool.not_eq_true', List.contains_eq_mem,
+        decide_eq_false_iff_not] at hd
+      by_cases htx : t = x
+      · subst htx
+        obtain ⟨m, h1, h2⟩ := ih (mapSet m0 t id) hp' hd.2
+        refine ⟨m, by simp [substTok, tokValues, h1], fun _ => ?_⟩
+        rw [tokValues_keeps _ _ _ _ _ h1 hd.1, mapGet_mapSet_same]
+      · obtain ⟨m, h1, h2⟩ := ih (mapSet m0 x (36 :: x)) hp' hd.2
+        refine ⟨m, by simp [substTok, htx, tokValues, h1], fun ht => ?_⟩
+        simp only [tagsOf, List.mem_cons] at ht
+        rcases ht with ht | ht
+        · exact absurd ht htx
+        · exact h2 ht
+    | star =>
+      obtain ⟨m, h1, h2⟩ := ih m0 hp' (by simpa [distinctTags] using hd)
+      exact ⟨m, by simp [substTok, tokValues, h1], by simpa [tagsOf] using h2⟩
+    | full =>
+      have := wfPat_full hp
+      subst this
+      exact ⟨m0, by simp [substTok, tokValues], by simp [tagsOf]⟩
+
+theorem id_roundtrip_tok (pt : List Tok) (t id : Str) (hp : wfPat pt = true)
+    (hd : distinctTags pt = true) (ht : t ∈ tagsOf pt) (hid : isValidPart id = true) :
+    ∃ m, values (render pt) (replaceTag (render pt) t id) = some m ∧ mapGet m t = some id := by
+  have hidok : (Tok.lit id).sOk := by
+    simp [isValidPart] at hid
+    refine ⟨by simpa using hid.1, ?_⟩
+    intro x hx
+    have := hid.2 x hx
+    omega
+  have hs : ∀ n ∈ pt.map (substTok (fun t' => if t = t' then some id else none)), n.sOk := by
+    intro n hn
+    simp only [List.mem_map] at hn
+    obtain ⟨a, ha, rfl⟩ := hn
+    have haok := Tok.ok_sOk (wfPat_all_ok hp a ha)
+    cases a with
+    | tag x =>
+      by_cases htx : t = x
+      · subst htx; simpa [substTok] using hidok
+      · simpa [substTok, htx] using haok
+    | lit s => simpa [substTok] using haok
+    | star => simpa [substTok] using haok
+    | full => simpa [substTok] using haok
+  obtain ⟨m, h1, h2⟩ := tokValues_replaceTag pt t id [] hp hd
+  refine ⟨m, ?_, h2 ht⟩
+  unfold values replaceTag replace
+  rw [replaceLoop_spec _ pt hp, valuesLoop_spec pt _ [] hp hs]
+  exact h1
+
+/-! ## covering -/
+
+/-- a list of well-formed literal tokens (a name, possibly empty) -/
+def IsLits (st : List Tok) : Prop := ∀ n ∈ st, ∃ s, n = .lit s ∧ litOk s = true
+
+theorem IsLits.nil : IsLits [] := by intro n hn; simp at hn
+
+theorem IsLits.cons {s : Str} {st : List Tok} (hs : litOk s = true) (h : IsLits st) :
+    IsLits (.lit s :: st) := by
+  intro n hn
+  simp only [List.mem_cons] at hn
+  rcases hn with rfl | hn
+  · exact ⟨s, rfl, hs⟩
+  · exact h n hn
+
+theorem IsLits.ne_full {st : List Tok} (h : IsLits st) : ∀ n ∈ st, n ≠ .full := by
+  intro n hn
+  obtain ⟨s, rfl, _⟩ := h n hn
+  simp
+
+theorem isName_of_isLits {st : List Tok} (h : IsLits st) (hne : st ≠ []) : isName st = true :=
+  (isName_iff st).2 ⟨hne, h⟩
+
+/-- the simplest name token matched by a pattern token -/
+def instTok : Tok → Tok
+  | .lit a => .lit a
+  | _ => .lit [97]
+
+theorem instTok_lit {n : Tok} (hn : n.ok = true) : ∃ s, instTok n = .lit s ∧ litOk s = true := by
+  cases n with
+  | lit a => exact ⟨a, rfl, hn⟩
+  | tag x => exact ⟨[97], rfl, by decide⟩
+  | star => exact ⟨[97], rfl, by decide⟩
+  | full => exact ⟨[97], rfl, by decide⟩
+
+theorem isLits_inst {qt : List Tok} (hq : wfPat qt = true) : IsLits (qt.map instTok) := by
+  intro n hn
+  simp only [List.mem_map] at hn
+  obtain ⟨a, ha, rfl⟩ := hn
+  exact instTok_lit (wfPat_all_ok hq a ha)
+
+theorem tokMatches_inst {qt : List Tok} (hq : wfPat qt = true) :
+    tokMatches qt (qt.map instTok) = true := by
+  induction qt with
+  | nil => simp [tokMatches]
+  | cons n qs ih =>
+    have ih' := ih (wfPat_tail hq)
+    cases n with
+    | lit a => simp [instTok, tokMatches, ih']
+    | tag x => simp [instTok, tokMatches, ih']
+    | star => simp [instTok, tokMatches, ih']
+    | full =>
+      have := wfPat_full hq
+      subst this
+      simp [instTok, tokMatches]
+
+theorem tokMatches_trans (pt qt st : List Tok) (hst : ∀ n ∈ st, n ≠ .full)
+    (h1 : tokMatches pt qt = true) (h2 : tokMatches qt st = true) : tokMatches pt st = true := by
+  induction pt generalizing qt st with
+  | nil =>
+    have : qt = [] := by simpa [tokMatches_nil_left] using h1
+    subst this
+    exact h2
+  | cons t ps ih =>
+    cases qt with
+    | nil => simp [tokMatches_nil_right] at h1
+    | cons n qs =>
+      cases st with
+      | nil => simp [tokMatches_nil_right] at h2
+      | cons s ss =>
+        have hs := hst s (List.mem_cons_self ..)
+        have hss : ∀ n ∈ ss, n ≠ .full := fun x hx => hst x (List.mem_cons_of_mem _ hx)
+        have hq : n ≠ .full → tokMatches qs ss = true := by
+          intro hn
+          cases n with
+          | lit b => cases s <;> simp_all [tokMatches]
+          | tag x => simp_all [tokMatches]
+          | star => simp_all [tokMatches]
+          | full => exact absurd rfl hn
+        cases t with
+        | lit a =>
+          cases n with
+          | lit b =>
+            cases s with
+            | lit c =>
+              simp only [tokMatches, Bool.and_eq_true, beq_iff_eq] at h1 h2 ⊢
+              exact ⟨h1.1.trans h2.1, ih qs ss hss h1.2 h2.2⟩
+            | tag x => simp [tokMatches] at h2
+            | star => simp [tokMatches] at h2
+            | full => simp [tokMatches] at h2
+          | tag x => simp [tokMatches] at h1
+          | star => simp [tokMatches] at h1
+          | full => simp [tokMatches] at h1
+        | tag x =>
+          simp only [tokMatches, Bool.and_eq_true, bne_iff_ne] at h1 ⊢
+          exact ⟨hs, ih qs ss hss h1.2 (hq h1.1)⟩
+        | star =>
+          simp only [tokMatches, Bool.and_eq_true, bne_iff_ne] at h1 ⊢
+          exact ⟨hs, ih qs ss hss h1.2 (hq h1.1)⟩
+        | full =>
+          cases ps with
+          | nil => simp [tokMatches]
+          | cons p ps => simp [tokMatches] at h1
+
+/-- a literal different from a given one -/
+def otherLit (a : Str) : Str := if a = [97] then [98] else [97]
+
+theorem otherLit_ok (a : Str) : litOk (otherLit a) = true := by
+  unfold otherLit; split <;> decide
+
+theorem otherLit_ne (a : Str) : a ≠ otherLit a := by
+  unfold otherLit; split <;> simp_all
+
+theorem tokMatches_distinguish (pt qt : List Tok) (hp : wfPat pt = true) (hq : wfPat qt = true)
+    (h : tokMatches pt qt = false) :
+    ∃ st, IsLits st ∧ tokMatches qt st = true ∧ tokMatches pt st = false := by
+  induction pt generalizing qt with
+  | nil =>
+    refine ⟨qt.map instTok, isLits_inst hq, tokMatches_inst hq, ?_⟩
+    cases qt with
+    | nil => simp [tokMatches] at h
+    | cons n qs => simp [tokMatches]
+  | cons t ps ih =>
+    cases qt with
+    | nil => exact ⟨[], IsLits.nil, by simp [tokMatches], by simp [tokMatches_nil_right]⟩
+    | cons n qs =>
+      have hp' := wfPat_tail hp
+      have hq' := wfPat_tail hq
+      have hn := wfPat_head hq
+      -- the generic step for a wildcard head of `pt`
+      have wild : (∀ s ss, tokMatches (t :: ps) (s :: ss) = (s != .full && tokMatches ps ss)) →
+          ∃ st, IsLits st ∧ tokMatches (n :: qs) st = true ∧ tokMatches (t :: ps) st = false := by
+        intro ht
+        by_cases hnf : n = .full
+        · subst hnf
+          have := wfPat_full hq
+          subst this
+          cases ps with
+          | nil =>
+            refine ⟨[.lit [97], .lit [97]], IsLits.cons (by decide) (IsLits.cons (by decide) IsLits.nil),
+              by simp [tokMatches], ?_⟩
+            rw [ht]; simp [tokMatches]
+          | cons p ps =>
+            refine ⟨[.lit [97]], IsLits.cons (by decide) IsLits.nil, by simp [tokMatches], ?_⟩
+            rw [ht]; simp [tokMatches_nil_right]
+        · have h' : tokMatches ps qs = false := by
+            rw [ht] at h; simpa [hnf] using h
+          obtain ⟨ss, l1, l2, l3⟩ := ih qs hp' hq' h'
+          obtain ⟨s, hs, hsok⟩ := instTok_lit hn
+          refine ⟨instTok n :: ss, hs ▸ IsLits.cons hsok l1, ?_, ?_⟩
+          · cases n with
+            | lit b => simp [instTok, tokMatches, l2]
+            | tag x => simp [instTok, tokMatches, l2]
+            | star => simp [instTok, tokMatches, l2]
+            | full => exact absurd rfl hnf
+          · rw [ht, l3]; simp
+      cases t with
+      | lit a =>
+        have lit_other : ∀ ss, IsLits ss → tokMatches (n :: qs) (.lit (otherLit a) :: ss) = true →
+            ∃ st, IsLits st ∧ tokMatches (n :: qs) st = true ∧
+              tokMatches (Tok.lit a :: ps) st = false := by
+          intro ss l1 l2
+          exact ⟨.lit (otherLit a) :: ss, IsLits.cons (otherLit_ok a) l1, l2,
+            by simp [tokMatches, otherLit_ne a]⟩
+        cases n with
+        | lit b =>
+          by_cases hab : a = b
+          · subst hab
+            have h' : tokMatches ps qs = false := by simpa [tokMatches] using h
+            obtain ⟨ss, l1, l2, l3⟩ := ih qs hp' hq' h'
+            exact ⟨.lit a :: ss, IsLits.cons hn l1, by simp [tokMatches, l2], by simp [tokMatches, l3]⟩
+          · exact ⟨.lit b :: qs.map instTok, IsLits.cons hn (isLits_inst hq'),
+              by simp [tokMatches, tokMatches_inst hq'], by simp [tokMatches, hab]⟩
+        | tag x =>
+          exact lit_other _ (isLits_inst hq') (by simp [tokMatches, tokMatches_inst hq'])
+        | star =>
+          exact lit_other _ (isLits_inst hq') (by simp [tokMatches, tokMatches_inst hq'])
+        | full =>
+          have := wfPat_full hq
+          subst this
+          exact lit_other [] IsLits.nil (by simp [tokMatches])
+      | tag x => exact wild (fun s ss => by simp [tokMatches])
+      | star => exact wild (fun s ss => by simp [tokMatches])
+      | full =>
+        have := wfPat_full hp
+        subst this
+        simp [tokMatches] at h
+
+theorem covers_tok (pt qt : List Tok) (hp : wfPat pt = true) (hq : wfPat qt = true) (hne : qt ≠ []) :
+    «matches» (render pt) (render qt) = true ↔
+      ∀ st, isName st = true → «matches» (render qt) (render st) = true →
+        «matches» (render pt) (render st) = true := by
+  unfold «matches»
+  rw [matchesLoop_spec pt qt hp (wfPat_all_ok hq)]
+  constructor
+  · intro h st hs h2
+    rw [matchesLoop_spec qt st hq (isName_ok hs)] at h2
+    rw [matchesLoop_spec pt st hp (isName_ok hs)]
+    exact tokMatches_trans pt qt st (isName_ne_full hs) h h2
+  · intro h
+    cases hm : tokMatches pt qt with
+    | true => rfl
+    | false =>
+      obtain ⟨st, l1, l2, l3⟩ := tokMatches_distinguish pt qt hp hq hm
+      have hst : st ≠ [] := by
+        rintro rfl
+        cases qt with
+        | nil => exact hne rfl
+        | cons n qs => simp [tokMatches_nil_right] at l2
+      have hs := isName_of_isLits l1 hst
+      have := h st hs (by rw [matchesLoop_spec qt st hq (isName_ok hs)]; exact l2)
+      rw [matchesLoop_spec pt st hp (isName_ok hs), l3] at this
+      exact absurd this (by simp)
+
 end GoRes.Pattern
